@@ -1014,8 +1014,7 @@ impl<T> HeaderMatcher<T> {
     //@|         forall|i: int| 0 <= i < vf_it1_idx ==> cond_true(*#[trigger] vf_it1_rem0[i], *request),
     //@|     decreases cset.len() - vf_it1_idx,
     //@| loophead 1: proof { assert(condition == vf_it1_rem0[vf_it1_idx - 1]); lemma_cover_sound(vf_it1_rem0, cset); assert(cset.contains(*condition)); }
-    //@| before `continue 'group;`#0: proof { assert(!cond_true(*condition, *request)); assert(!group_true(cset, *request)); lemma_contrib_false(vf_it0_rem0, vf_it0_idx, *request); }
-    //@| before `continue 'group;`#1: proof { assert(!cond_true(*condition, *request)); assert(!group_true(cset, *request)); lemma_contrib_false(vf_it0_rem0, vf_it0_idx, *request); }
+    //@| before `continue 'group;`#*: proof { assert(!cond_true(*condition, *request)); assert(!group_true(cset, *request)); lemma_contrib_false(vf_it0_rem0, vf_it0_idx, *request); }
     //@| loopend 1: proof {
     //@|     assert forall|c: HeaderCondition| cset.contains(c) implies cond_true(c, *request) by {
     //@|         assert(vf_it1_rem0.contains(&c));
@@ -1232,8 +1231,7 @@ impl<T> DateTimeMatcher<T> {
     //@|         forall|i: int| 0 <= i < vf_it1_idx ==> dt_cond_true(*#[trigger] vf_it1_rem0[i], *request),
     //@|     decreases cset.len() - vf_it1_idx,
     //@| loophead 1: proof { assert(condition == vf_it1_rem0[vf_it1_idx - 1]); lemma_cover_sound(vf_it1_rem0, cset); assert(cset.contains(*condition)); }
-    //@| before `continue 'group;`#0: proof { assert(!dt_cond_true(*condition, *request)); assert(!dt_group_true(cset, *request)); lemma_contrib_false_dt(vf_it0_rem0, vf_it0_idx, *request); }
-    //@| before `continue 'group;`#1: proof { assert(!dt_cond_true(*condition, *request)); assert(!dt_group_true(cset, *request)); lemma_contrib_false_dt(vf_it0_rem0, vf_it0_idx, *request); }
+    //@| before `continue 'group;`#*: proof { assert(!dt_cond_true(*condition, *request)); assert(!dt_group_true(cset, *request)); lemma_contrib_false_dt(vf_it0_rem0, vf_it0_idx, *request); }
     //@| loopend 1: proof {
     //@|     assert forall|c: DateTimeCondition| cset.contains(c) implies dt_cond_true(c, *request) by {
     //@|         assert(vf_it1_rem0.contains(&c));
